@@ -274,7 +274,7 @@ pub fn filter_paths(paths: Vec<PathBuf>, e: &FileExtensions) -> (r: Vec<PathBuf>
 //@closure 1 skeleton=`let relevant_files = event .paths .into_iter() .filter(<CLOSURE>) .collect::<Vec<_>>();` becomes=`let relevant_files = filter_paths(event.paths, extensions);`
 //@contract
     ensures
-        /*[C16.try-send]*/ result matches Ok(ev) && (exists|i: int| 0 <= i < ev.paths@.len() && relevant(#[trigger] ev.paths@[i], *extensions)) ==> final(tr).sends == old(tr).sends + 1,
+        /*[C16.try-send,C06.event]*/ result matches Ok(ev) && (exists|i: int| 0 <= i < ev.paths@.len() && relevant(#[trigger] ev.paths@[i], *extensions)) ==> final(tr).sends == old(tr).sends + 1,
         /*[C16.try-send]*/ result matches Ok(ev) && (forall|i: int| 0 <= i < ev.paths@.len() ==> !relevant(#[trigger] ev.paths@[i], *extensions)) ==> *final(tr) == *old(tr),
         /*[C16.total]*/ result is Err ==> *final(tr) == *old(tr),
 //@pre
@@ -344,8 +344,8 @@ pub fn watch_groups<'a>(m: HashMap<FileExtensions, HashSet<&'a PathBuf>>, target
     ensures
         /*[C06.missing-path]*/ r is Err ==> final(tr).hard_error || final(tr).created == old(tr).created,
         /*[C06.missing-path]*/ !final(tr).hard_error && final(tr).created > old(tr).created ==> r is Ok,
-        /*[C06.watch-all]*/ r is Ok ==> final(tr).watched.len() == old(tr).watched.len() + paths@.len(),
-        /*[C06.watch-all]*/ r is Ok ==> forall|p: &PathBuf| #![trigger paths@.contains(p)] paths@.contains(p) ==> final(tr).watched.contains(*p),
+        /*[C06.watch-all,C16.watch-all]*/ r is Ok ==> final(tr).watched.len() == old(tr).watched.len() + paths@.len(),
+        /*[C06.watch-all,C16.watch-all,C13.watched]*/ r is Ok ==> forall|p: &PathBuf| #![trigger paths@.contains(p)] paths@.contains(p) ==> final(tr).watched.contains(*p),
 //@pre
         broadcast use axiom_pathref_key_model;
         broadcast use vstd::std_specs::hash::group_hash_axioms;
@@ -380,7 +380,7 @@ impl TargetWatcher {
 //@closure 1 skeleton=`let watchers = paths_grouped_by_extensions .into_iter() .filter(|(_extensions, paths)| !paths.is_empty()) .map(<CLOSURE>) .collect::<Result<Vec<_>>>()?;` becomes=`let watchers = watch_groups(paths_grouped_by_extensions, target_id, target_invalidated_sender, Tracked(tr))?;`
 //@contract
     ensures
-        /*[C06.watch-inputs]*/ r matches Ok(w) ==> (w is Some <==> target_input is Some),
+        /*[C06.watch-inputs,C16.watch-all,C13.watched]*/ r matches Ok(w) ==> (w is Some <==> target_input is Some),
 //@end
 }
 
